@@ -15,6 +15,7 @@ import concurrent.futures as cf
 import hashlib
 import json
 import os
+import re
 import subprocess
 import sys
 import time
@@ -486,6 +487,25 @@ def check_sticky(ck, case, st, tally, streams, origin, prop="C14"):
     return out
 
 
+CIRCLE_RUNS = {}
+
+
+def check_circle_runs(ck):
+    """the op logs of the runs whose passes went round in a circle, against model/C14_Circle.v (ctl_run_circle): accepted,
+    and ending in the assignment the real assign() returned"""
+    if not CIRCLE_RUNS:
+        return
+    items = list(CIRCLE_RUNS.items())[:400]
+    body = "".join("Eval vm_compute in (run_sticky_circle ([" + "; ".join(map(str, s[1:])) + "]%nat)).\n" for s, _ in items)
+    okc, out = ck.coq_eval("c14_circle", ["C14_Run", "C14_Circle"], body, timeout=900)
+    vals = [re.findall(r"\d+", v) for v in parse_eval_outputs(out)] if okc else []
+    bad = [c for (_, c), v in zip(items, vals) if v[:2] != ["1", "1"]]
+    ck.obligation("correspondence:circle-runs-accepted-by-ctl_run_circle",
+                  okc and len(vals) == len(items) and not bad,
+                  f"{len(items)} circle runs" if okc and not bad else f"coq ok={okc}; {len(bad)} of {len(items)} rejected; first: {json.dumps(bad[:1])[:600]} {out[-300:] if not okc else ''}")
+    ck.extra["circle_runs_checked_in_coq"] = len(items)
+
+
 def settle(ck, tally, streams, results, engine):
     """compare the model-side results with the expectations queued by check_case"""
     for (stream, exp), got in zip(streams, results):
@@ -514,6 +534,7 @@ def settle(ck, tally, streams, results, engine):
                 # of the model's loop (balanced / a pass without a move) - the run is outside StickyCtl, as the known
                 # finding says (its result is still checked by the monitors and against the abstract machine)
                 tally.n[f"{engine}:sticky-oplog-circle-outside-StickyCtl(known finding)"] += 1
+                CIRCLE_RUNS[tuple(stream)] = case        # judged by ctl_run_circle inside Coq at the end of the run
             else:
                 tally.ok(f"{engine}:sticky-oplog-accepted-by-StickyCtl",
                          g["ctl_accepts_log"] == 1 and g["ctl_final_equals_returned"] == 1, d)
@@ -762,6 +783,7 @@ def run(ck: Check):
     k = "sticky:returned==executor-final"
     ck.obligation("correspondence:sticky-returned-assignment==executor-state", tally.n[k + ":bad"] == 0,
                   tally.detail(k))
+    check_circle_runs(ck)
     ck.extra["agreement_counters"] = dict(tally.n)
     ck.extra["timing_s"] = {"real_code": round(t_impl, 1), "monitors_encoding": round(t_mon, 1),
                             "ocaml": round(t_ocaml, 1), "total": round(time.time() - t_start, 1)}
